@@ -292,6 +292,15 @@ fn seam_part(run: &Run) {
             }
         }
     }
+    // one 3x3 block without unit entries (seed `C03-ratio-mul-keeps-common-factor`: over Q a product of two
+    // non-integral rationals only appears in the third elimination step, after two non-unit pivots were inverted;
+    // the rank over Q goes wrong on rank-deficient matrices): all 3x3 matrices over {2,3,6} (thorough {2,3,4,6})
+    {
+        let al3: Vec<Z> = if th { [2, 3, 4, 6].map(z).to_vec() } else { [2, 3, 6].map(z).to_vec() };
+        for (a, ca) in checks::matconv::all_matrices(3, 3, &al3) {
+            cases.push((Block { qplus: true, m: a }, Block { qplus: false, m: RMat::zero(0, 0) }, format!("3x3:{ca}|0x0:-")));
+        }
+    }
     run.par_for(cases.len(), |i| {
         if run.over_budget() {
             run.cap("wall budget reached in the seam part");
@@ -341,7 +350,7 @@ fn main() {
     let coverage = json!({
         "evaluations": run.get("evaluations"),
         "distinct_nontrivial": run.get("diagrams") + run.get("seam_complexes"),
-        "rule": "link level: all planar diagrams with <= 3 (thorough 4) crossings + braid closures + every table knot/link with <= 8 (thorough 10) crossings and its mirror (twice each) x {i64,i128,BigInt,Ratio<i64>,FF2,FF<3>} x two routes x reduced/unreduced; seam level: all two-term bigraded complexes C^0 -> C^1 made of two q-blocks with <= 3 generators per side in total and entries from {0,1,2,3,4,6}, pushed through the real into_bigraded code of both routes (hook H5) and compared with the per-bidegree Smith invariants",
+        "rule": "link level: all planar diagrams with <= 3 (thorough 4) crossings + braid closures + every table knot/link with <= 8 (thorough 10) crossings and its mirror (twice each) x {i64,i128,BigInt,Ratio<i64>,FF2,FF<3>} x two routes x reduced/unreduced; seam level: all two-term bigraded complexes C^0 -> C^1 made of two q-blocks with <= 3 generators per side in total and entries from {0,1,2,3,4,6}, plus every single 3x3 block over {2,3,6} (thorough {2,3,4,6}), pushed through the real into_bigraded code of both routes (hook H5) and compared with the per-bidegree Smith invariants",
         "diagrams": run.get("diagrams"),
         "seam_complexes": run.get("seam_complexes"),
         "exhaustive": true,
